@@ -568,6 +568,8 @@ func init() {
 			{ID: "C14-guard", Floor: 32, Run: c14Guard, Text: "[DOM] every exported façade method that reaches processor data is dominated by the !isHalted() edge; the halted edge returns ErrInconsistentState"},
 			{ID: "C14-stop", Floor: 3, Run: c14Stop, Text: "[DOM] ProcessBlock tests isHalted() before any data access / NewTx; driver cancels and returns on ErrInconsistentState"},
 			{ID: "C14-set", Floor: 3, Run: c14Set, Text: "[DOM] halting sites store true then return ErrInconsistentState without commit; ErrInvalidIndex always reaches the latch"},
+			{ID: "C14-value", Floor: 5, Run: shared("C14-value", c06Rewind), Text: "(shared with C06-rewind/C06-value) the reorg handed to the processor is the notified one (an empty reorg stays empty)"},
+			{ID: "C14-index", Floor: 2, Run: func(c *core.Ctx) { onlyNextIndex(c, "C14-index") }, Text: "(shared with C01-step) an out-of-sequence deposit count — a gap or a regression — always surfaces as tree.ErrInvalidIndex, the error the halt is latched on"},
 			{ID: "C14-clear", Floor: 7, Run: c14Clear, Text: "[WHO]+[PROV]+[DOM] enumerate all writes of the halted flags; only UnhaltIfAffectedRows clears, under rowsAffected>0, called from Reorg after a nil Commit with the DELETE's RowsAffected"},
 		},
 	})
